@@ -42,6 +42,10 @@ pub enum WsStep {
     Send(Vec<WsMsg>),
     /// the application writes this packet (canonical frame)
     Write(#[serde(with = "hex")] Vec<u8>),
+    /// the application writes all these packets back to back while the server only starts
+    /// reading 15 ms later: with the small socket buffers of such a session the transport
+    /// exerts back-pressure (Pending) in the middle of the burst
+    WriteBurst(#[serde(with = "crate::scenario::hexvec")] Vec<Vec<u8>>),
 }
 
 #[derive(Serialize, Deserialize, Clone, Copy, Debug, PartialEq, Eq)]
@@ -59,6 +63,10 @@ pub struct WsSc {
     pub mode: SizeMode,
     pub steps: Vec<WsStep>,
     pub end: WsEnd,
+    /// the frames of the last Send step are read only after the server has ended the session
+    /// (close frame and/or FIN already queued behind the data)
+    #[serde(default)]
+    pub late_read: bool,
 }
 
 const GUARD: Duration = Duration::from_secs(3);
@@ -71,6 +79,7 @@ enum WEv {
     ServerGot { msg: String },
     ServerGotNothing,
     End { res: AppRes },
+    Burst { wrote: Vec<AppRes>, got: Vec<String> },
 }
 
 struct WsRun {
@@ -108,9 +117,21 @@ fn run_ws(sc: &WsSc) -> WsRun {
     let rt = tokio::runtime::Builder::new_current_thread().enable_all().build().unwrap();
     let mut events = Vec::new();
     let r: Result<(), String> = rt.block_on(async {
-        let listener = TcpListener::bind("127.0.0.1:0").await.map_err(|e| e.to_string())?;
+        let small = sc.steps.iter().any(|s| matches!(s, WsStep::WriteBurst(_)));
+        let lsock = tokio::net::TcpSocket::new_v4().map_err(|e| e.to_string())?;
+        if small {
+            // client -> server direction only: the server -> client direction keeps default
+            // buffers so that lock-step sends never block
+            let _ = lsock.set_recv_buffer_size(2048);
+        }
+        lsock.bind("127.0.0.1:0".parse().unwrap()).map_err(|e| e.to_string())?;
+        let listener: TcpListener = lsock.listen(8).map_err(|e| e.to_string())?;
         let addr = listener.local_addr().map_err(|e| e.to_string())?;
-        let client_tcp = TcpStream::connect(addr).await.map_err(|e| e.to_string())?;
+        let csock = tokio::net::TcpSocket::new_v4().map_err(|e| e.to_string())?;
+        if small {
+            let _ = csock.set_send_buffer_size(2048);
+        }
+        let client_tcp: TcpStream = csock.connect(addr).await.map_err(|e| e.to_string())?;
         let (server_tcp, _) = listener.accept().await.map_err(|e| e.to_string())?;
         let _ = client_tcp.set_nodelay(true);
         let _ = server_tcp.set_nodelay(true);
@@ -123,7 +144,35 @@ fn run_ws(sc: &WsSc) -> WsRun {
 
         let mut stream: Vec<u8> = Vec::new();
         let mut frames_read = 0usize;
-        'steps: for st in &sc.steps {
+        let mut stopped = false;
+        let last_send = sc.steps.iter().rposition(|s| matches!(s, WsStep::Send(_)));
+        macro_rules! read_completed {
+            ($stopped:ident) => {{
+                    let complete = split_frames(sc.mode, &stream).iter().filter(|f| f.kind == FrameKind::Complete).count();
+                    while frames_read < complete {
+                        let f = &split_frames(sc.mode, &stream)[frames_read];
+                        let is_ka = matches!(expect_for(sc.mode, false, &stream[f.start..f.start + f.len]), Expect::Pkt { keepalive: true, .. });
+                        let res = match tokio::time::timeout(GUARD, framed.read()).await {
+                            Err(_) => AppRes::Other("no result within the 3 s guard although the server's messages were already sent".into()),
+                            Ok(r) => to_res(r),
+                        };
+                        let stop = !matches!(res, AppRes::Pkt(_) | AppRes::Decode(_) | AppRes::IncompatibleVersion(_));
+                        events.push(WEv::Read { res });
+                        frames_read += 1;
+                        if stop {
+                            $stopped = true;
+                            break;
+                        }
+                        if is_ka {
+                            match server_next(&mut server).await {
+                                Some(m) => events.push(WEv::ServerGot { msg: m }),
+                                None => events.push(WEv::ServerGotNothing),
+                            }
+                        }
+                    }
+            }};
+        }
+        'steps: for (si, st) in sc.steps.iter().enumerate() {
             match st {
                 WsStep::Send(msgs) => {
                     for m in msgs {
@@ -143,27 +192,50 @@ fn run_ws(sc: &WsSc) -> WsRun {
                         }
                         events.push(WEv::ServerSent { kind, len });
                     }
-                    let complete = split_frames(sc.mode, &stream).iter().filter(|f| f.kind == FrameKind::Complete).count();
-                    while frames_read < complete {
-                        let f = &split_frames(sc.mode, &stream)[frames_read];
-                        let is_ka = matches!(expect_for(sc.mode, false, &stream[f.start..f.start + f.len]), Expect::Pkt { keepalive: true, .. });
-                        let res = match tokio::time::timeout(GUARD, framed.read()).await {
-                            Err(_) => AppRes::Other("no result within the 3 s guard although the server's messages were already sent".into()),
-                            Ok(r) => to_res(r),
-                        };
-                        let stop = !matches!(res, AppRes::Pkt(_) | AppRes::Decode(_) | AppRes::IncompatibleVersion(_));
-                        events.push(WEv::Read { res });
-                        frames_read += 1;
-                        if stop {
-                            break 'steps;
-                        }
-                        if is_ka {
-                            match server_next(&mut server).await {
-                                Some(m) => events.push(WEv::ServerGot { msg: m }),
-                                None => events.push(WEv::ServerGotNothing),
+                    if sc.late_read && Some(si) == last_send {
+                        // read after the server has ended the session
+                        continue;
+                    }
+                    read_completed!(stopped);
+                    if stopped {
+                        break 'steps;
+                    }
+                },
+                WsStep::WriteBurst(fs) => {
+                    let pkts: Vec<insim::Packet> = fs.iter().filter_map(|f| ref_decode_packet(sc.mode, f).1).collect();
+                    let n = pkts.len();
+                    let cli = async {
+                        let mut wrote = Vec::new();
+                        for p in pkts {
+                            let res = match tokio::time::timeout(GUARD * 2, framed.write(p)).await {
+                                Err(_) => AppRes::Other("write did not finish within 6 s although the server was reading".into()),
+                                Ok(Ok(())) => AppRes::Done,
+                                Ok(Err(e)) => AppRes::from_err(&e),
+                            };
+                            let bad = res != AppRes::Done;
+                            wrote.push(res);
+                            if bad {
+                                break;
                             }
                         }
-                    }
+                        wrote
+                    };
+                    let srv = async {
+                        tokio::time::sleep(Duration::from_millis(15)).await;
+                        let mut got = Vec::new();
+                        for _ in 0..n {
+                            match server_next(&mut server).await {
+                                Some(m) => got.push(m),
+                                None => {
+                                    got.push("<nothing within 3 s>".into());
+                                    break;
+                                },
+                            }
+                        }
+                        got
+                    };
+                    let (wrote, got) = tokio::join!(cli, srv);
+                    events.push(WEv::Burst { wrote, got });
                 },
                 WsStep::Write(f) => {
                     let Some(p) = ref_decode_packet(sc.mode, f).1 else { continue };
@@ -180,7 +252,34 @@ fn run_ws(sc: &WsSc) -> WsRun {
                 },
             }
         }
+        if stopped {
+            return Ok(());
+        }
         // the end of the session
+        if sc.late_read {
+            // the server ends the session first: close frame (optional) then FIN, its read side
+            // stays open; only then does the client read what the last Send step delivered
+            if sc.end == WsEnd::Close {
+                let _ = tokio::time::timeout(GUARD, server.close(None)).await;
+            }
+            {
+                use tokio::io::AsyncWriteExt;
+                let _ = tokio::time::timeout(GUARD, server.get_mut().shutdown()).await;
+            }
+            read_completed!(stopped);
+            if stopped {
+                return Ok(());
+            }
+            let r = tokio::time::timeout(GUARD * 2, framed.read()).await;
+            events.push(WEv::End {
+                res: match r {
+                    Err(_) => AppRes::Other("read after the end of the stream did not return within 6 s".into()),
+                    Ok(r) => to_res(r),
+                },
+            });
+            drop(server);
+            return Ok(());
+        }
         match sc.end {
             WsEnd::Close => {
                 let srv = async {
@@ -370,13 +469,49 @@ impl Prop for C20 {
                 steps.push(WsStep::Write(gen::gen_out_frame(rng, mode, stats)));
             }
         }
+        // a burst of writes against a reader that starts late (back-pressure on the write half)
+        if rng.chance(1, 6) {
+            let n = rng.usize(40, 400);
+            let big = rng.chance(2, 3);
+            let mut fs = Vec::new();
+            for _ in 0..n {
+                let mut f = gen::gen_out_frame(rng, mode, stats);
+                if big {
+                    for _ in 0..8 {
+                        if f.len() >= 96 {
+                            break;
+                        }
+                        f = gen::gen_out_frame(rng, mode, stats);
+                    }
+                }
+                fs.push(f);
+            }
+            let at = rng.usize(0, steps.len());
+            steps.insert(at, WsStep::WriteBurst(fs));
+        }
+        // in a third of the sessions the end of the stream is already queued behind the last
+        // messages when the application gets round to reading them; the sentinel then goes
+        // before the last Send step
+        let late_read = rng.chance(1, 3);
         // sentinel write: flushes out anything unexpected the client may have sent
         let mut sentinel = vec![mode.size_byte(8), 4, 0xEE, 0, 0xAA, 0xBB, 0xCC, 0xDD];
         if !ref_decode_packet(mode, &sentinel).0.is_pkt() {
             sentinel = gen::tiny(mode, 0xEE, 3);
         }
-        steps.push(WsStep::Write(sentinel));
-        WsSc { mode, steps, end }
+        if late_read {
+            let at = steps.iter().rposition(|s| matches!(s, WsStep::Send(_))).unwrap_or(steps.len());
+            // no writes after the server has gone: move everything after the last Send before it
+            let tail: Vec<WsStep> = steps.drain(at + 1..).collect();
+            let last = steps.pop();
+            steps.extend(tail);
+            steps.push(WsStep::Write(sentinel));
+            if let Some(l) = last {
+                steps.push(l);
+            }
+        } else {
+            steps.push(WsStep::Write(sentinel));
+        }
+        WsSc { mode, steps, end, late_read }
     }
 
     fn execute(&self, sc: &WsSc) -> RunReport {
@@ -396,7 +531,65 @@ impl Prop for C20 {
         let mut frames_read = 0usize;
         let mut binary_msgs = 0usize;
         let mut stopped = false;
-        'steps: for st in &sc.steps {
+        let last_send = sc.steps.iter().rposition(|s| matches!(s, WsStep::Send(_)));
+        macro_rules! check_completed {
+            () => {{
+                    let frames = split_frames(sc.mode, &stream);
+                    let complete = frames.iter().filter(|f| f.kind == FrameKind::Complete).count();
+                    while frames_read < complete {
+                        let f = &frames[frames_read];
+                        let e = expect_for(sc.mode, false, &stream[f.start..f.start + f.len]);
+                        let want = render(&e);
+                        let Some(WEv::Read { res }) = evs.get(i) else {
+                            stopped = true;
+                            break;
+                        };
+                        i += 1;
+                        frames_read += 1;
+                        let got = render_res(res);
+                        h.write(got.as_bytes());
+                        if e == Expect::Unmodelled {
+                            stopped = true;
+                            break;
+                        }
+                        if got != want {
+                            let clause = match res {
+                                AppRes::Pkt(_) | AppRes::Decode(_) => "ws.wrong_packet",
+                                _ => "ws.read_failed",
+                            };
+                            rep.violations.push(v(
+                                clause,
+                                format!("{} read #{} ({} binary messages, {} bytes so far): expected {}, got {}", tag, frames_read, binary_msgs, stream.len(), want.chars().take(140).collect::<String>(), got.chars().take(200).collect::<String>()),
+                            ));
+                            stopped = true;
+                            break;
+                        }
+                        if matches!(e, Expect::Pkt { keepalive: true, .. }) {
+                            rep.probe("keepalive_over_ws");
+                            match evs.get(i) {
+                                Some(WEv::ServerGot { msg }) => {
+                                    i += 1;
+                                    if *msg != pong {
+                                        rep.violations.push(v("ws.reply_message", format!("{} after a keep-alive the server received {} instead of one binary message {}", tag, msg.chars().take(100).collect::<String>(), pong)));
+                                        stopped = true;
+                                        break;
+                                    }
+                                },
+                                Some(WEv::ServerGotNothing) => {
+                                    rep.violations.push(v("ws.reply_message", format!("{} a keep-alive was read but no reply reached the server within 3 s", tag)));
+                                    stopped = true;
+                                    break;
+                                },
+                                _ => {
+                                    stopped = true;
+                                    break;
+                                },
+                            }
+                        }
+                    }
+            }};
+        }
+        'steps: for (si, st) in sc.steps.iter().enumerate() {
             match st {
                 WsStep::Send(msgs) => {
                     for m in msgs {
@@ -451,58 +644,52 @@ impl Prop for C20 {
                             },
                         }
                     }
-                    let frames = split_frames(sc.mode, &stream);
-                    let complete = frames.iter().filter(|f| f.kind == FrameKind::Complete).count();
-                    while frames_read < complete {
-                        let f = &frames[frames_read];
-                        let e = expect_for(sc.mode, false, &stream[f.start..f.start + f.len]);
-                        let want = render(&e);
-                        let Some(WEv::Read { res }) = evs.get(i) else {
-                            stopped = true;
-                            break 'steps;
-                        };
-                        i += 1;
-                        frames_read += 1;
-                        let got = render_res(res);
-                        h.write(got.as_bytes());
-                        if e == Expect::Unmodelled {
-                            stopped = true;
-                            break 'steps;
-                        }
-                        if got != want {
-                            let clause = match res {
-                                AppRes::Pkt(_) | AppRes::Decode(_) => "ws.wrong_packet",
-                                _ => "ws.read_failed",
-                            };
-                            rep.violations.push(v(
-                                clause,
-                                format!("{} read #{} ({} binary messages, {} bytes so far): expected {}, got {}", tag, frames_read, binary_msgs, stream.len(), want.chars().take(140).collect::<String>(), got.chars().take(200).collect::<String>()),
-                            ));
-                            stopped = true;
-                            break 'steps;
-                        }
-                        if matches!(e, Expect::Pkt { keepalive: true, .. }) {
-                            rep.probe("keepalive_over_ws");
-                            match evs.get(i) {
-                                Some(WEv::ServerGot { msg }) => {
-                                    i += 1;
-                                    if *msg != pong {
-                                        rep.violations.push(v("ws.reply_message", format!("{} after a keep-alive the server received {} instead of one binary message {}", tag, msg.chars().take(100).collect::<String>(), pong)));
-                                        stopped = true;
-                                        break 'steps;
-                                    }
-                                },
-                                Some(WEv::ServerGotNothing) => {
-                                    rep.violations.push(v("ws.reply_message", format!("{} a keep-alive was read but no reply reached the server within 3 s", tag)));
-                                    stopped = true;
-                                    break 'steps;
-                                },
-                                _ => {
-                                    stopped = true;
-                                    break 'steps;
-                                },
-                            }
-                        }
+                    if sc.late_read && Some(si) == last_send {
+                        continue;
+                    }
+                    check_completed!();
+                    if stopped {
+                        break 'steps;
+                    }
+                },
+                WsStep::WriteBurst(fs) => {
+                    let exp: Vec<String> = fs
+                        .iter()
+                        .filter_map(|f| ref_decode_packet(sc.mode, f).1)
+                        .filter_map(|p| ref_encode(sc.mode, &p).ok())
+                        .map(|b| format!("binary:{}", hex::enc(&b)))
+                        .collect();
+                    let Some(WEv::Burst { wrote, got }) = evs.get(i) else {
+                        stopped = true;
+                        break 'steps;
+                    };
+                    i += 1;
+                    rep.fault("write_burst_against_slow_reader");
+                    rep.probe_n("burst_bytes", exp.iter().map(|e| (e.len() - 7) as u64 / 2).sum());
+                    h.write(format!("{:?}", got.len()).as_bytes());
+                    if let Some(bad) = wrote.iter().find(|r| **r != AppRes::Done) {
+                        rep.violations.push(v("ws.write_failed", format!("{} a write inside a burst of {} failed: {:?}", tag, exp.len(), bad)));
+                        stopped = true;
+                        break 'steps;
+                    }
+                    if *got != exp {
+                        let k = got.iter().zip(exp.iter()).position(|(a, b)| a != b).unwrap_or(got.len().min(exp.len()));
+                        let dup = k > 0 && got.get(k) == exp.get(k - 1);
+                        rep.violations.push(v(
+                            "ws.burst_messages",
+                            format!(
+                                "{} burst of {} writes against a slow reader: message #{} seen by the server is {} but write #{} was {}{}",
+                                tag,
+                                exp.len(),
+                                k,
+                                got.get(k).map(|s| s.chars().take(60).collect::<String>()).unwrap_or_default(),
+                                k,
+                                exp.get(k).map(|s| s.chars().take(60).collect::<String>()).unwrap_or_default(),
+                                if dup { " (a repeat of the previous frame)" } else { "" }
+                            ),
+                        ));
+                        stopped = true;
+                        break 'steps;
                     }
                 },
                 WsStep::Write(f) => {
@@ -545,6 +732,10 @@ impl Prop for C20 {
                     }
                 },
             }
+        }
+        if !stopped && sc.late_read {
+            rep.fault("end_of_stream_queued_behind_unread_data");
+            check_completed!();
         }
         if !stopped {
             if let Some(WEv::End { res }) = evs.get(i) {
@@ -633,6 +824,7 @@ impl Prop for C20 {
                 mode,
                 steps: vec![WsStep::Send(vec![WsMsg::Binary(mode.pong().to_vec())])],
                 end: WsEnd::Close,
+                late_read: false,
             })
             .collect()
     }
@@ -645,6 +837,8 @@ impl Prop for C20 {
             "kernel loopback TCP as a dumb pipe; both WebSocket ends built with from_raw_socket (no HTTP upgrade, which the library hard-wires to isrelay.lfs.net)".into(),
             "real time in this world: each awaited call is guarded by 3 s (expected ~100 us); expiry is reported as a failed read".into(),
             "tungstenite answers pings itself; that is not asserted".into(),
+            "write bursts: client send buffer and server receive buffer are shrunk to the kernel minimum and the server starts reading 15 ms late, so the burst meets back-pressure; which write meets it is decided by the kernel, the observable outcome (message sequence seen by the server) must not depend on it".into(),
+            "late reads: the server queues its close frame and/or FIN (write half shut down, read half kept open so that no RST can destroy queued data) before the client reads the last messages".into(),
             "'all caller read-buffer sizes' is covered only as far as the connection's own spare capacity varies over a session (sessions up to 30 KB)".into(),
         ]
     }
@@ -669,6 +863,8 @@ impl Prop for C20 {
             "clean_close",
             "abrupt_drop",
             "ended_with_partial_frame",
+            "write_burst_against_slow_reader",
+            "end_of_stream_queued_behind_unread_data",
         ]
     }
 }
